@@ -115,7 +115,43 @@ impl VehicleTypes {
 }
 
 // ================================================================ Network::new : overflow depot
-//@skeleton model/src/network.rs Network::new : recv sum 0; let max_formation_count; let overflow_capacity; let overflow_depot = 102b23a1618499a4
+//@skeleton model/src/network.rs Network::new : recv sum 0; let max_formation_count; let overflow_capacity; let overflow_depot; closure map#6; closure map#8; closure map#10 = f8835c362d476487
+
+// ---- A-index, the part of it that is code of this repository: the entries of the time-sorted maps (`SortedNodes` =
+// BTreeMap<(DateTime, NodeIdx), NodeIdx>) that `Network::new` builds are ((start time of n, n), n) resp. ((end time of n, n), n).
+// WHICH nodes are fed into the closures (the chain service nodes of the type + maintenance nodes + start depots + end depots)
+// and the `collect` into the BTreeMap stay plumbing under the skeleton hash.
+//@item model/src/network/nodes.rs Node::start_time : trusted
+//@retname r
+//@sig
+    ensures r == self.sp_start_time(),
+//@end
+//@item model/src/network/nodes.rs Node::end_time : trusted
+//@retname r
+//@sig
+    ensures r == self.sp_end_time(),
+//@end
+//@frag model/src/network.rs Network::new : closure map#6 as frag_index_entry_all_nodes
+//@params nodes: &HashMap<NodeIdx, Node>, n: NodeIdx
+//@ret (r: ((DateTime, NodeIdx), NodeIdx))
+//@sig
+    requires nodes@.contains_key(n),
+    ensures r == ((nodes@[n].sp_start_time(), n), n), // @obl C17.index.all_nodes_keyed_by_start_time_then_node
+//@end
+//@frag model/src/network.rs Network::new : closure map#8 as frag_index_entry_by_start
+//@params nodes: &HashMap<NodeIdx, Node>, n: NodeIdx
+//@ret (r: ((DateTime, NodeIdx), NodeIdx))
+//@sig
+    requires nodes@.contains_key(n),
+    ensures r == ((nodes@[n].sp_start_time(), n), n), // @obl C17.index.type_nodes_keyed_by_start_time_then_node
+//@end
+//@frag model/src/network.rs Network::new : closure map#10 as frag_index_entry_by_end
+//@params nodes: &HashMap<NodeIdx, Node>, n: NodeIdx
+//@ret (r: ((DateTime, NodeIdx), NodeIdx))
+//@sig
+    requires nodes@.contains_key(n),
+    ensures r == ((nodes@[n].sp_end_time(), n), n), // @obl C17.index.type_nodes_keyed_by_end_time_then_node
+//@end
 
 //@frag model/src/network.rs Network::new : recv sum 0 as frag_service_trip_counts
 //@params service_trips: &StdMap<VehicleTypeIdx, Vec<ServiceTrip>>
